@@ -37,6 +37,10 @@ def gen_cases(tier, seed):
     for i in range(n):
         a = TM.gen_bare_history(r, long=(tier != "quick" and i % 3 == 0))
         cs.append(Case("b%d" % i, "bpool", a, "bare-api", TM.pool_nontrivial(a)))
+    n = 30 if tier == "quick" else 500
+    for i in range(n):
+        a = TM.gen_dead_idle_then_quiet(r)
+        cs.append(Case("dq%d" % i, "pool", a, "dead-idle-then-quiet", True))
     n = 40 if tier == "quick" else 600
     for i in range(n):
         a = TM.gen_slow_pass(r)
